@@ -54,6 +54,7 @@ BodProd(i) == IF i = 0 THEN {<<>>}
 Cat == [i \in 1..MaxId |-> [hdr |-> << <<72, 48 + i>> >>, idx |-> 1, shapes |-> bod[i].shapes, raw |-> <<>>]]
 SizeOf(id) == Octets(Canon(Cat[id]))
 Box(b) == [i \in 1..Len(b) |-> [uid |-> b[i].uid, id |-> b[i].id]]
+KMap(b) == [i \in 1..Len(b) |-> <<b[i].uid, b[i].key>>]
 Keys(b) == {b[i].key : i \in 1..Len(b)}
 MaxKey(b) == IF b = <<>> THEN 0 ELSE CHOOSE k \in Keys(b) : \A j \in Keys(b) : j <= k
 Without(b, S) == LET keep == {i \in 1..Len(b) : i \notin S}
@@ -62,12 +63,14 @@ Without(b, S) == LET keep == {i \in 1..Len(b) : i \notin S}
 Packed(b) == [i \in 1..Len(b) |-> [b[i] EXCEPT !.key = i]]
 
 NoEvent == [act |-> "Init", sub |-> "", n |-> 0, k |-> 0, st |-> "none", nums |-> <<>>, lines |-> <<>>,
-            term |-> FALSE, extra |-> 0, pairs |-> <<>>, closed |-> FALSE, pre |-> <<>>, post |-> <<>>]
+            term |-> FALSE, extra |-> 0, pairs |-> <<>>, closed |-> FALSE, pre |-> <<>>, post |-> <<>>,
+            kmap |-> <<>>, kpost |-> <<>>]
 Ev(act, n, k, st, nums, raw, pairs, pre, post) ==
     LET r == IF act \in {"List", "Uidl", "Retr", "Top"} /\ st = "ok" THEN ReadMulti(raw)
              ELSE [lines |-> <<>>, term |-> FALSE, extra |-> Octets(raw)] IN
     [act |-> act, sub |-> "", n |-> n, k |-> k, st |-> st, nums |-> nums, lines |-> r.lines, term |-> r.term,
-     extra |-> r.extra, pairs |-> pairs, closed |-> FALSE, pre |-> Box(pre), post |-> Box(post)]
+     extra |-> r.extra, pairs |-> pairs, closed |-> FALSE, pre |-> Box(pre), post |-> Box(post),
+     kmap |-> KMap(pre), kpost |-> KMap(post)]
 
 Init ==
     /\ \E c \in InitCounts : \E g \in InitGap :
@@ -106,7 +109,8 @@ Same == UNCHANGED <<inbox, nextUid, nextId, bod>>
 Open ==
     /\ pop.phase = "pre"
     /\ pop' = [phase |-> "open", snap |-> inbox, marks |-> {}, cache |-> [n \in 1..Len(inbox) |-> -1]]
-    /\ Emit([NoEvent EXCEPT !.act = "Open", !.pre = Box(inbox), !.post = Box(inbox)])
+    /\ Emit([NoEvent EXCEPT !.act = "Open", !.pre = Box(inbox), !.post = Box(inbox),
+                            !.kmap = KMap(inbox), !.kpost = KMap(inbox)])
     /\ Same /\ UNCHANGED <<np, ni>>
 
 Stat == /\ pop' = [pop EXCEPT !.cache = Cached(Live)]
@@ -183,7 +187,8 @@ PopStep ==
 
 ---------------------------------------------------------------------------
 (* the rest of the world: IMAP sessions and the MH agent                    *)
-ImapEv(sub, n, post) == [NoEvent EXCEPT !.act = "Imap", !.sub = sub, !.n = n, !.pre = Box(inbox), !.post = Box(post)]
+ImapEv(sub, n, post) == [NoEvent EXCEPT !.act = "Imap", !.sub = sub, !.n = n, !.pre = Box(inbox), !.post = Box(post),
+                                        !.kmap = KMap(inbox), !.kpost = KMap(post)]
 NewMsg(sub) ==
     /\ nextId <= MaxId
     /\ LET nb == Append(inbox, [uid |-> nextUid, id |-> nextId, key |-> MaxKey(inbox) + 1]) IN
@@ -195,7 +200,7 @@ Expunge(i) ==
 Tick ==     \* time passes; a folder with gaps in its numbering is packed
     /\ inbox # Packed(inbox)
     /\ inbox' = Packed(inbox)
-    /\ Emit([ImapEv("", 0, inbox) EXCEPT !.act = "Tick"])
+    /\ Emit([ImapEv("", 0, Packed(inbox)) EXCEPT !.act = "Tick"])
     /\ UNCHANGED <<nextUid, nextId, bod>>
 ImapStep ==
     /\ ni < MaxImap /\ pop.phase # "closed"
